@@ -1,4 +1,4 @@
-import RV.Proofs.Var
+import RV.Proofs.VarAux
 /-
   C16 — variational particles are the derivatives of the trajectory.
 
@@ -101,6 +101,27 @@ theorem c16_var1_is_derivative (G : K) (sq : K → K) (ps : List (RV1 K))
     simp only [accBasicAll]
     rw [h1, ← h2]
 
+/-- the same with `N_active < N` and either `testparticle_type`: active pairs
+    (gravity.c:1036-1074) followed by the test-particle loop (1075-1115) equal the ε-part of
+    the force routine with the same split (gravity.c:161-222).  Test particles need not be
+    separated from each other (they do not interact). -/
+theorem c16_var1_split_is_derivative (G : K) (sq : K → K) (tptype : Bool) (act tst : List (RV1 K))
+    (hact : act.Pairwise (fun e l => PairOK sq l.1 e.1))
+    (htst : ∀ t ∈ tst, ∀ a ∈ act, PairOK sq t.1 a.1) :
+    (accBasicSplit (Dual.const G) Scalar.zero (Dual.sqrtLift sq) tptype (act.map dz1) (tst.map dz1)).map epsV
+        = accVar1Split G sq tptype act tst := by
+  have h1 := loopLF_hom V3.add V3.add V3.zero V3.zero epsV dz1
+      (forcePair (Dual.const G) Scalar.zero (Dual.sqrtLift sq)) (var1Pair G sq) epsV_add rfl
+      (fun pi pj => PairOK sq pi.1 pj.1) (fun pi pj hp => var1_pair G sq pi pj hp) act [] []
+      (fun _ _ _ hq => by cases hq) hact
+  have h2 := crossLoop_hom V3.add V3.add V3.zero V3.zero epsV dz1
+      (forcePair (Dual.const G) Scalar.zero (Dual.sqrtLift sq)) (var1Pair G sq) epsV_add rfl
+      (fun pi pj => PairOK sq pi.1 pj.1) (fun pi pj hp => var1_pair G sq pi pj hp) tptype act tst
+      (loopLF V3.add V3.zero (forcePair (Dual.const G) Scalar.zero (Dual.sqrtLift sq)) [] [] (act.map dz1)) htst
+  simp only [List.map_nil] at h1
+  rw [h1] at h2
+  simp only [accBasicSplit, accVar1Split, List.map_append, h2.1, h2.2]
+
 /-! ### second order -/
 
 /-- **Second-order variational accelerations are the mixed second derivative.**
@@ -120,5 +141,157 @@ theorem c16_var2_is_second_derivative (G : K) (sq : K → K) (ps : List (RV2 K))
   rw [h1, loopLF_eq_g]
   exact loopLFg_eq_loopEF V3.add (var2Pair G sq) ps _ (by simp)
     (List.pairwise_of_forall (fun a b => var2Pair_symm G sq a b))
+
+
+/-! ### single test-particle variations (`vc.testparticle >= 0`) -/
+
+/-- first order: `tpVar1` (gravity.c:1117-1154) is the ε-part of the force on a test
+    particle at `(x,y,z) + ε·(ddx,ddy,ddz)` due to the bodies `others` (which do not move
+    and have no mass variation).  The C loop runs over *all* real `j ≠ i` while the force
+    on a type-0 test particle comes from the active ones only: `c16_testparticle_massless_term`
+    shows the two agree exactly when the inactive ones are massless. -/
+theorem c16_var1_testparticle_is_derivative (G : K) (sq : K → K) (x y z ddx ddy ddz : K)
+    (others : List (GP K)) (h : ∀ pj ∈ others, PairOK sq ⟨0, x, y, z⟩ pj) :
+    epsV (tpForce (Dual.const G) Scalar.zero (Dual.sqrtLift sq) ⟨x, ddx⟩ ⟨y, ddy⟩ ⟨z, ddz⟩ (others.map cGP))
+      = tpVar1 G sq x y z ddx ddy ddz others := by
+  simp only [tpForce, tpVar1]
+  exact foldl_hom epsV V3.add V3.add epsV_add _ _ cGP others
+    (fun pj hpj => tpVar1_term G sq x y z ddx ddy ddz pj (h pj hpj)) V3.zero
+
+/-- second order: `tpVar2` (gravity.c:1262-1325) is the ε₁ε₂-part of the same force at
+    `(x,y,z) + ε₁ k1 + ε₂ k2 + ε₁ε₂ dd` -/
+theorem c16_var2_testparticle_is_second_derivative (G : K) (sq : K → K) (x y z : K) (dd k1 k2 : V3 K)
+    (others : List (GP K)) (h : ∀ pj ∈ others, PairOK sq ⟨0, x, y, z⟩ pj) :
+    epsV2 (tpForce (Dual.const (Dual.const G)) Scalar.zero (Dual2.sqrtLift2 sq)
+        (d4 x k1.x k2.x dd.x) (d4 y k1.y k2.y dd.y) (d4 z k1.z k2.z dd.z) (others.map cGP2))
+      = tpVar2 G sq x y z dd k1 k2 others := by
+  simp only [tpForce, tpVar2]
+  exact foldl_hom epsV2 V3.add V3.add epsV2_add _ _ cGP2 others
+    (fun pj hpj => tpVar2_term G sq x y z dd k1 k2 pj (h pj hpj)) V3.zero
+
+omit [CharZero K] in
+/-- a massless body contributes nothing to a single test-particle variation -/
+theorem c16_testparticle_massless_term (G : K) (sq : K → K) (x y z ddx ddy ddz : K) (pj : GP K)
+    (hm : pj.m = 0) (a : V3 K) :
+    V3.add a (tpVar1Term G sq x y z ddx ddy ddz pj) = a := by
+  obtain ⟨ax, ay, az⟩ := a
+  simp [V3.add, tpVar1Term, hm]
+
+/-! ### move_to_com -/
+
+omit [CharZero K] in
+/-- the first-order correction `com_shift` of `reb_simulation_move_to_com`
+    (tools.c:279-299, each Cartesian component) is the ε-part of the centre of mass
+    `Σ mᵢxᵢ / Σ mᵢ` evaluated at `m + ε·dm`, `x + ε·dx` -/
+theorem c16_move_to_com_var1 (l : List (C1 K)) (hM : (l.map C1.m).sum ≠ 0) :
+    comShift1 (massSum (l.map C1.m)) l = (comSimple (l.map dC1)).eps := by
+  obtain ⟨a1, a2⟩ := dualMx_acc (Scalar.zero : Dual K) l
+  obtain ⟨b1, b2⟩ := dualM_acc (Scalar.zero : Dual K) l
+  simp only [comShift1, comSimple, massSum, Dual.div_eps, a1, a2, b1, b2, Dual.zero_re, Dual.zero_eps,
+    sc_zero, sc_hadd, sc_hsub, sc_hmul, sc_hdiv, zero_add, massSum_acc]
+  rw [comShift1_acc _ _ _ hM]
+  field_simp
+  ring
+
+/-- the second-order correction (tools.c:174-259) is the ε₁ε₂-part of the centre of mass
+    evaluated on `Dual (Dual K)` -/
+theorem c16_move_to_com_var2 (l : List (C2 K)) (hM : (l.map C2.m).sum ≠ 0) :
+    comShift2 (massSum (l.map C2.m)) l = (comSimple (l.map dC2)).eps.eps := by
+  obtain ⟨a1, a2, a3, a4⟩ := dual2Mx_acc (Scalar.zero : Dual2 K) l
+  obtain ⟨b1, b2, b3, b4⟩ := dual2M_acc (Scalar.zero : Dual2 K) l
+  simp only [Dual.zero_re, Dual.zero_eps, sc_zero, zero_add] at a1 a2 a3 a4 b1 b2 b3 b4
+  have hq := quot2_epseps (l.map (fun p => p.m * p.x)).sum
+    (l.map (fun p => p.m * p.xa + p.ma * p.x)).sum
+    (l.map (fun p => p.m * p.xb + p.mb * p.x)).sum
+    (l.map (fun p => p.m * p.xx + p.ma * p.xb + p.mb * p.xa + p.mm * p.x)).sum
+    (l.map C2.m).sum (l.map C2.ma).sum (l.map C2.mb).sum (l.map C2.mm).sum hM
+  simp only [comSimple, massSum]
+  have e : ∀ d : Dual2 K, d = ⟨⟨d.re.re, d.re.eps⟩, ⟨d.eps.re, d.eps.eps⟩⟩ := fun _ => rfl
+  rw [e ((l.map dC2).foldl _ _), e (((l.map dC2).map Prod.fst).foldl _ _), a1, a2, a3, a4, b1, b2, b3, b4, hq]
+  simp only [comShift2, massSum, massSum_acc, two, sc_zero, sc_hadd, sc_hsub, sc_hmul, sc_hdiv, sc_ofNat,
+    zero_add]
+  push_cast
+  rw [comShift2_acc _ _ _ _ _ hM]
+  ring
+
+end RV.Var
+
+/-! ### the hypotheses are necessary / satisfiable -/
+namespace RV.Var
+open RV
+
+/-- **Softening must be 0.**  With softening² = 16, two unit masses at distance 3 and the
+    variation δx₁ = 1, the ε-part of the softened force differs from what the variational
+    loop computes (2/3125 vs 2/27): `reb_calculate_acceleration_var` ignores `softening`. -/
+theorem c16_softening_needed :
+    (accBasicAll (Dual.const (1:ℚ)) (Dual.const 16) (Dual.sqrtLift sqQ)
+      ([(⟨1, 0, 0, 0⟩, ⟨0, 0, 0, 0⟩), (⟨1, 3, 0, 0⟩, ⟨0, 1, 0, 0⟩)].map dz1)).map epsV
+    ≠ accVar1 1 sqQ [(⟨1, 0, 0, 0⟩, ⟨0, 0, 0, 0⟩), (⟨1, 3, 0, 0⟩, ⟨0, 1, 0, 0⟩)] := by
+  simp only [accBasicAll, accVar1, loopLF, inner, forcePair, var1Pair, dz1, epsV, three, List.map_cons, List.map_nil,
+    List.nil_append, List.cons_append, V3.add, V3.zero,
+    Dual.add_re, Dual.add_eps, Dual.sub_re, Dual.sub_eps,
+    Dual.mul_re, Dual.mul_eps, Dual.div_re, Dual.div_eps, Dual.neg_re, Dual.neg_eps,
+    Dual.sqrtLift_re, Dual.sqrtLift_eps, Dual.const_re, Dual.const_eps, Dual.zero_re, Dual.zero_eps,
+    sc_zero, sc_one, sc_hadd, sc_hsub, sc_hmul, sc_hdiv, sc_hneg, sc_ofNat, sqQ]
+  norm_num
+
+/-- the hypotheses of the first/second-order theorems hold for a concrete non-trivial
+    rational configuration (a 3-4-5 triangle, unequal masses, a massless body, mass variations) -/
+example : ([(⟨1, 0, 0, 0⟩, ⟨1/10, 1, 0, 0⟩), (⟨1/1000, 3, 4, 0⟩, ⟨1/7, 0, 1, 2⟩), (⟨0, 3, 0, 0⟩, ⟨0, 0, 0, 1⟩)]
+    : List (RV1 ℚ)).Pairwise (fun e l => PairOK sqQ l.1 e.1) := by
+  simp only [List.pairwise_cons, List.mem_cons, List.not_mem_nil, or_false, forall_eq_or_imp, forall_eq,
+    PairOK, r2of, sqQ, List.Pairwise.nil, and_true, IsEmpty.forall_iff, implies_true]
+  norm_num
+
+/-- over ℝ with the true square root the only hypothesis left is that no two particles coincide -/
+theorem c16_var1_is_derivative_real (G : ℝ) (ps : List (RV1 ℝ))
+    (h : ps.Pairwise (fun e l => r2of l.1 e.1 ≠ 0)) :
+    (accBasicAll (Dual.const G) Scalar.zero (Dual.sqrtLift Real.sqrt) (ps.map dz1)).map epsV
+        = accVar1 G Real.sqrt ps :=
+  (c16_var1_is_derivative G Real.sqrt ps (h.imp (fun hne => pairOK_real _ _ hne))).1
+
+theorem c16_var2_is_second_derivative_real (G : ℝ) (ps : List (RV2 ℝ))
+    (h : ps.Pairwise (fun e l => r2of l.p e.p ≠ 0)) :
+    (accBasicAll (Dual.const (Dual.const G)) Scalar.zero (Dual2.sqrtLift2 Real.sqrt) (ps.map dz2)).map epsV2
+        = accVar2 G Real.sqrt ps :=
+  c16_var2_is_second_derivative G Real.sqrt ps (h.imp (fun hne => pairOK_real _ _ hne))
+
+/-- the abstract `exp`/`log` of the rescaling theorem are realised by the real functions -/
+example : (∀ a b : ℝ, Real.exp (a + b) = Real.exp a * Real.exp b) ∧ (∀ s : ℝ, 0 < s → Real.exp (Real.log s) = s) :=
+  ⟨Real.exp_add, fun _ hs => Real.exp_log hs⟩
+
+end RV.Var
+
+/-! ### reb_simulation_rescale_var -/
+namespace RV.Var
+open RV
+variable {K : Type} [Field K] [LinearOrder K] [IsStrictOrderedRing K]
+
+/-- **Rescaling changes only the recorded magnitude.**  `exp`/`log` are abstract with
+    `exp (a+b) = exp a · exp b` and `exp (log s) = s` for `s > 0`.  For configurations with
+    pairwise disjoint particle slots, after `reb_simulation_rescale_var` (tools.c:1298-1371;
+    threshold `thr ≥ 0`, any synchronisation state, any mix of orders / test-particle
+    sets / early returns): every configuration keeps `order`, `index`, `testparticle`;
+    its represented variation `exp(lrescale)·δ` is unchanged in all six components;
+    second-order sets and sets with `lrescale < 0` are not touched at all; and every
+    slot that belongs to no configuration (in particular every real particle) is unchanged. -/
+theorem c16_rescale_var (exp log : K → K) (hadd : ∀ a b, exp (a + b) = exp a * exp b)
+    (hlog : ∀ s, 0 < s → exp (log s) = s) (thr : K) (hthr : 0 ≤ thr) (nReal : Nat) (sync : Bool)
+    (cfgs : List (VC K)) (mem : Nat → P6 K) (hd : cfgs.Pairwise (DisjointCfg nReal)) :
+    List.Forall₂ (CfgRel exp nReal mem (rescaleVar (fieldOps log) thr nReal sync mem cfgs).mem)
+        cfgs (rescaleVar (fieldOps log) thr nReal sync mem cfgs).cfgs ∧
+    (∀ k, (∀ vc ∈ cfgs, ¬ InRange nReal vc k) →
+      (rescaleVar (fieldOps log) thr nReal sync mem cfgs).mem k = mem k) :=
+  rescaleLoop_spec exp log hadd hlog thr hthr nReal sync cfgs mem false false hd
+
+/-- real particles (slots `< N_real`) are never modified, given what `add_variation`
+    guarantees: every configuration starts at or after `N_real` -/
+theorem c16_rescale_real_particles_untouched (exp log : K → K) (hadd : ∀ a b, exp (a + b) = exp a * exp b)
+    (hlog : ∀ s, 0 < s → exp (log s) = s) (thr : K) (hthr : 0 ≤ thr) (nReal : Nat) (sync : Bool)
+    (cfgs : List (VC K)) (mem : Nat → P6 K) (hd : cfgs.Pairwise (DisjointCfg nReal))
+    (hidx : ∀ vc ∈ cfgs, nReal ≤ vc.index) (k : Nat) (hk : k < nReal) :
+    (rescaleVar (fieldOps log) thr nReal sync mem cfgs).mem k = mem k :=
+  (c16_rescale_var exp log hadd hlog thr hthr nReal sync cfgs mem hd).2 k
+    (fun vc hvc hin => by have := hidx vc hvc; have := hin.1; omega)
 
 end RV.Var
